@@ -58,7 +58,17 @@ func Drive(r *vf.Run, cfg Config, cases []any, fatalFeatures func(i int, f Fatal
 			r.Inconclusive(fmt.Sprintf("case %d: %s", i, res.Inconcl))
 		}
 	}
+	var fatalSamples []any
+	fatalWhere := map[string]int{}
 	for _, f := range out.Fatals {
+		if cfg.FatalNotViolation {
+			r.Count("process_fatal_events_not_judged", 1)
+			fatalWhere[f.Kind+" at "+f.Where+": "+f.Panic]++
+			if len(fatalSamples) < 5 {
+				fatalSamples = append(fatalSamples, map[string]any{"kind": f.Kind, "where": f.Where, "panic": f.Panic, "case": raws[f.Index]})
+			}
+			continue
+		}
 		feat := map[string]string{}
 		if fatalFeatures != nil {
 			for k, v := range fatalFeatures(f.Index, f) {
@@ -70,6 +80,10 @@ func Drive(r *vf.Run, cfg Config, cases []any, fatalFeatures func(i int, f Fatal
 		}
 		r.Violate(vf.Violation{Clause: f.Kind, Features: feat, Detail: fmt.Sprintf("%s\n%s", f.Panic, f.Log), Case: raws[f.Index]})
 		r.Count("process_fatal_events", 1)
+	}
+	if cfg.FatalNotViolation && len(out.Fatals) > 0 {
+		r.Set("process_fatal_events_by_site", fatalWhere)
+		r.Set("process_fatal_event_samples", fatalSamples)
 	}
 	for _, s := range out.Inconclusive {
 		r.Inconclusive(s)
